@@ -264,7 +264,7 @@ Proof.
       * destruct W2 as [HR2 _]. apply HR2. eapply lookup_remove_key. exact H0.
     + intros v a' Hg. right. exists a'. split; [exact Hg|]. split; [reflexivity|]. split; [apply incl_refl|]. split; auto. }
     unfold stop_if_parent_gone. destruct (get s5 u) as [pa|]; [|intros H; inversion H; subst; exact W5].
-    destruct (st_ge_terminating (a_st pa)); [|intros H; inversion H; subst; exact W5].
+    destruct (not_alive (a_st pa)); [|intros H; inversion H; subst; exact W5].
     destruct (terminate s5 self t (a_graceful pa)) as [s6 o6] eqn:E6. intros H; inversion H; subst. eapply WI_terminate; [exact E6|exact W5].
 Qed.
 
@@ -651,7 +651,7 @@ Lemma nt_spawn s u self t r s' o p : spawn s u self t r = (s', o, p) -> nt o.
 Proof.
   unfold spawn. destruct (provide s t) as [s1 inst]. destruct (lookup t _); [intros H; inversion H; subst; reflexivity|].
   unfold stop_if_parent_gone. destruct (get _ u) as [pa|]; [|intros H; inversion H; subst; reflexivity].
-  destruct (st_ge_terminating (a_st pa)); [|intros H; inversion H; subst; reflexivity].
+  destruct (not_alive (a_st pa)); [|intros H; inversion H; subst; reflexivity].
   destruct (terminate _ self t (a_graceful pa)) as [sa oa] eqn:E. intros H; inversion H; subst. eapply nt_terminate; exact E.
 Qed.
 Lemma nt_escalate s u r s' o p : escalate s u r = (s', o, p) -> nt o.
